@@ -185,7 +185,7 @@ func part1(tier, bridge, work, only string, acc *ev.Acc) {
 			}
 		default:
 			acc.Add("declarations_accepted", 1)
-			if len(d.Coq) == 0 && d.Kind != "import" && d.GoName != "" { // a group with no specs declares nothing
+			if len(d.Coq) == 0 && d.Kind != "import" && d.GoName != "" && d.GoName != "_" { // a group with no specs, or a blank declaration, declares nothing
 				acc.Violate(ev.Violation{Key: fmt.Sprintf("C07/silently-dropped/%s/%s", formID, pos), Msg: fmt.Sprintf("form %s at %s: no error and no output for the declaration", formID, pos), Replay: map[string]any{"part": 1, "descriptor": name}})
 			}
 		}
